@@ -12,6 +12,8 @@ package abi
 
 import (
 	"fmt"
+	"go/ast"
+	"go/parser"
 	"go/token"
 	"go/types"
 	"os"
@@ -115,6 +117,87 @@ func TestZZVerifTypeNames(t *testing.T) {
 		}
 	}
 	fam := mk()
+	// types taken from type-checked source: function-local types of the same name in
+	// different functions and block scopes, local aliases, generic instantiations
+	{
+		const src = `package demo
+
+type Box[T any] struct{ v T }
+type Pair[K comparable, V any] struct { k K; v V }
+
+func F() {
+	type T int
+	var fn func(T) bool
+	var st struct{ Cmp func(a, b T) int }
+	var it interface{ Less(T) bool }
+	var bx Box[T]
+	var sl []T
+	_, _, _, _, _ = fn, st, it, bx, sl
+	{
+		type T uint8
+		var fn2 func(T) bool
+		var bx2 Box[T]
+		_, _ = fn2, bx2
+	}
+}
+
+func G() {
+	type T string
+	var fn func(T) bool
+	var st struct{ Cmp func(a, b T) int }
+	var it interface{ Less(T) bool }
+	var bx Box[T]
+	var sl []T
+	_, _, _, _, _ = fn, st, it, bx, sl
+}
+
+func H() {
+	type U string
+	var fn func(U) bool
+	var bx Box[U]
+	_, _ = fn, bx
+}
+
+func A1() { type A = int; var fn func(A) A; _ = fn }
+func A2() { type A = string; var fn func(A) A; _ = fn }
+
+func I() {
+	var b1 Box[int]
+	var b2 Box[string]
+	var b3 Box[Box[int]]
+	var p1 Pair[int, string]
+	var p2 Pair[string, int]
+	var f1 func(Box[int]) Box[string]
+	var f2 func(Box[string]) Box[int]
+	_, _, _, _, _, _, _ = b1, b2, b3, p1, p2, f1, f2
+}
+`
+		fset := token.NewFileSet()
+		f, err := parser.ParseFile(fset, "demo.go", src, 0)
+		if err != nil {
+			t.Fatal(err)
+		}
+		info := &types.Info{Defs: map[*ast.Ident]types.Object{}}
+		if _, err = (&types.Config{}).Check("example.com/demo", fset, []*ast.File{f}, info); err != nil {
+			t.Fatal(err)
+		}
+		for _, d := range f.Decls {
+			fd, ok := d.(*ast.FuncDecl)
+			if !ok {
+				continue
+			}
+			ast.Inspect(fd.Body, func(n ast.Node) bool {
+				if vs, ok := n.(*ast.ValueSpec); ok {
+					for _, id := range vs.Names {
+						if o := info.Defs[id]; o != nil {
+							fam = append(fam, entry{fmt.Sprintf("%s.%s at line %d: %s", fd.Name.Name, id.Name, fset.Position(id.Pos()).Line, o.Type()), o.Type()})
+						}
+					}
+				}
+				return true
+			})
+		}
+	}
 	b := New(8, &types.StdSizes{WordSize: 8, MaxAlign: 8})
 	names := make([]string, len(fam))
 	for i, e := range fam {
